@@ -5,6 +5,7 @@ package xpath
 // XPath 1.0 answer. Used to confirm fix: commits and as replay support.
 
 import (
+	"sync"
 	"regexp"
 	"sort"
 	"strconv"
@@ -1646,6 +1647,107 @@ func TestProbe_regex(t *testing.T) {
 	for _, bad := range []string{"matches('a', '(')", "replace('a', '[', 'x')", "//s[matches(., '*')]"} {
 		if _, err := Compile(bad); err == nil {
 			t.Errorf("%s: constant pattern that does not compile was accepted", bad)
+		}
+	}
+}
+
+func TestProbe_concurrent(t *testing.T) {
+	root := wdoc(`<r><a x="1" y="2"><b i="1">4<g/>t</b><c/></a><d z="3"/><b i="5">7</b><a><b i="2"/><b w="1" i="3"/></a><a/></r>`)
+	exprs := []string{"//b", "//a[b]", "//b[1]", "(//b)[2]", "//a | //b", "//b/following::*", "//b/ancestor::*", "count(//b)", "sum(//@i)", "string-join(//b/@i, ',')", "//b[matches(@i, '^[0-9]$')]", "replace(string(//b/@i), '1', 'x')", "normalize-space(//b)", "concat(//b/@i, 'x')", "//a[count(b)>1]", "reverse(//b)", "//b = //c", "substring('12345', 2, 3)", "translate(//a/@x, '1', 'z')", "//r | //a"}
+	var compiled []*Expr
+	var want []string
+	render := func(v interface{}) string {
+		if it, ok := v.(*NodeIterator); ok {
+			n := 0
+			for it.MoveNext() && n < 1000 {
+				n++
+			}
+			return fmt.Sprint("nodes:", n)
+		}
+		return fmt.Sprint(v)
+	}
+	for _, ex := range exprs {
+		e := MustCompile(ex)
+		compiled = append(compiled, e)
+		want = append(want, render(e.Evaluate(&TNodeNavigator{curr: root, root: root, attr: -1})))
+	}
+	var wg sync.WaitGroup
+	errs := make(chan string, 100)
+	for g := 0; g < 16; g++ {
+		wg.Add(1)
+		go func(g int) {
+			defer wg.Done()
+			for r := 0; r < 200; r++ {
+				i := (g + r) % len(compiled)
+				got := render(compiled[i].Evaluate(&TNodeNavigator{curr: root, root: root, attr: -1}))
+				if got != want[i] {
+					select {
+					case errs <- fmt.Sprintf("%s: got %s want %s", exprs[i], got, want[i]):
+					default:
+					}
+				}
+				if r%10 == 0 {
+					if _, err := Compile(exprs[(i+3)%len(exprs)]); err != nil {
+						errs <- err.Error()
+					}
+				}
+			}
+		}(g)
+	}
+	wg.Wait()
+	close(errs)
+	for e := range errs {
+		t.Error(e)
+	}
+}
+
+func TestProbe_iteratorProtocol(t *testing.T) {
+	root := wdoc(`<r><a x="1" y="2"><b i="1">4<g/>t</b><c/></a><d z="3"/><b i="5">7</b><a><b i="2"/><b w="1" i="3"/></a><a/></r>`)
+	exprs := []string{"//b", "//a[b]", "//b[1]", "(//b)[2]", "//a | //b", "//b/following::*", "//b/preceding::*", "//b/ancestor::*", "/r/*", "/r/a/b", "//@*", "//node()", "/r/a/@x", "//zz", "/", ".", "..", "//a/b[2]", "//b/..", "/r/*[position()>2]", "//a[2]//b", "(//a | //d)", "//b[@i>1]", "*/*", "//text()"}
+	nav := func() *TNodeNavigator { return &TNodeNavigator{curr: root, root: root, attr: -1} }
+	for _, ex := range exprs {
+		e := MustCompile(ex)
+		var seq []pnode
+		it := e.Select(nav())
+		for k := 0; it.MoveNext() && k < 1000; k++ {
+			cur := it.Current().(*TNodeNavigator)
+			seq = append(seq, pnode{cur.curr, cur.attr})
+		}
+		for k := 0; k < 3; k++ {
+			if it.MoveNext() {
+				t.Errorf("%s: MoveNext returned true after false", ex)
+			}
+		}
+		ev, ok := e.Evaluate(nav()).(*NodeIterator)
+		if !ok {
+			t.Errorf("%s: Evaluate did not return an iterator", ex)
+			continue
+		}
+		var seq2 []pnode
+		for k := 0; ev.MoveNext() && k < 1000; k++ {
+			cur := ev.Current().(*TNodeNavigator)
+			seq2 = append(seq2, pnode{cur.curr, cur.attr})
+		}
+		if fmt.Sprint(seq) != fmt.Sprint(seq2) {
+			t.Errorf("%s: Evaluate iterates %d nodes, Select %d (or another order)", ex, len(seq2), len(seq))
+		}
+		if c, _ := MustCompile("count(" + ex + ")").Evaluate(nav()).(float64); int(c) != len(seq) {
+			t.Errorf("count(%s) = %v, the sequence has %d nodes", ex, c, len(seq))
+		}
+		var rev []pnode
+		rit := MustCompile("reverse(" + ex + ")").Select(nav())
+		for k := 0; rit.MoveNext() && k < 1000; k++ {
+			cur := rit.Current().(*TNodeNavigator)
+			rev = append(rev, pnode{cur.curr, cur.attr})
+		}
+		okRev := len(rev) == len(seq)
+		for i := range rev {
+			if okRev && rev[i] != seq[len(seq)-1-i] {
+				okRev = false
+			}
+		}
+		if !okRev {
+			t.Errorf("reverse(%s): not the reversed sequence (%d vs %d nodes)", ex, len(rev), len(seq))
 		}
 	}
 }
